@@ -78,7 +78,11 @@ CHECKS = [
              'environment / direct-tcpip / tcpip-forward behaviour after '
              'success equal to the accepted credential\'s restrictions. '
              'Plus an enumerated race grid (gate fires at every loop-step '
-             'offset of the next request\'s set-up).',
+             'offset of the next request\'s set-up) and the converse clause: '
+             'an asyncssh client holding a password, keyboard-interactive '
+             'answers, a key, a certificate (user / empty / foreign principal '
+             'lists vs CA lines with and without principals=) or a key held '
+             'by a real OpenSSH ssh-agent is admitted exactly when valid.',
      'note': 'refpeer builds and signs the messages; validity ground truth is '
              'the harness table; GSS/host-based/X.509/sk methods not '
              'runnable; converse clause (valid credential admitted) checked '
@@ -127,7 +131,11 @@ CHECKS = [
              'beyond the window asyncssh granted while the application reads '
              'or has reading paused: inside => delivered in order and the '
              'window is replenished; beyond => protocol error and nothing of '
-             'the excess delivered.',
+             'the excess delivered. Streams: SSHReader programs with reads '
+             'around and above the window, early or late, while the peer '
+             'sends as far as window is granted: results partition the stream '
+             'and the peer is never left with data, no window and a pending '
+             'read.',
      'note': 'refpeer accounting is the reference; oversize-but-inside-window '
              'packets may be accepted or rejected; liveness in bounded form '
              '(quiescence of a loop without real I/O).',
@@ -282,7 +290,10 @@ CHECKS = [
              'non-UTF-8 / huge, followed by application writes; an enumerated '
              'grid of peer-announced window x maximum packet size x quirk '
              'version x compression followed by writes (non-progressing send '
-             'loops); random and mutated valid inputs to 13 decoders. Oracle: '
+             'loops); hostile SCP conversations against the four asyncssh SCP '
+             'roles; random and mutated valid inputs to 13 decoders (any '
+             'exception class other than the documented one is a violation). '
+             'Oracle: '
              'no exception escapes data_received, output and loop steps per '
              'chunk bounded, owner told exactly once, loop exception handler '
              'silent, decoders return or raise their documented error, DER '
@@ -335,7 +346,9 @@ CHECKS = [
              'SSHCompletedProcess contents whenever an exit status/signal is '
              'reported, with exit overtaking data in flight; 12 x 13 x 7 '
              'redirection source/target kinds incl. late redirects; '
-             'drain/pause/resume water marks and failure on close.',
+             'drain/pause/resume water marks and failure on close; several '
+             'tasks draining on one channel (drain never returns while '
+             'writing is paused).',
      'note': 'Real file descriptors polled by an idle selector loop with '
              'pre-queued data (deterministic); read(n) asserted only as '
              'documented (1..n units, prefix of the stream).',
